@@ -36,6 +36,18 @@ func layoutOf(k *h.Case, p *spec.Program, pScramble float64) *spec.Printed {
 	if h.Chance(k.R, pScramble) && os.Getenv("VERIF_NO_SCRAMBLE") == "" {
 		o.Scramble = true
 		o.CRLF = k.R.IntN(4) == 0
+	} else if os.Getenv("VERIF_NO_SCRAMBLE") == "" {
+		// a file of scripts only has no significant line break: now and then the whole file is one line
+		only := len(p.Items) > 0
+		for _, it := range p.Items {
+			if _, ok := it.(*spec.Script); !ok {
+				only = false
+			}
+		}
+		if only && k.R.IntN(12) == 0 {
+			o.OneLine = true
+			k.Count("files_written_on_one_line", 1)
+		}
 	}
 	pr.Layout(o)
 	return pr
